@@ -173,11 +173,20 @@ def record(run):
                            ctrXY=[[int(round(float(v) / scale)) for v in np.asarray(c).reshape(-1)] for c in coords]))
         return out
 
+    watched = []          # (name, object handed to the entry point, private copy taken before the call)
+
+    def watch(name, obj):
+        watched.append((name, obj, obj.copy() if isinstance(obj, np.ndarray) else list(obj)))
+        return obj
+
     def call():
+        del watched[:]
         algo, form = run["algo"], run.get("form", "function")
         init = None if not run.get("init") else X[run["init"]]
         if run.get("initXY"):          # initial centers that are not frames of the data (k-centers only)
             init = (np.array(run["initXY"], dtype="float64").reshape(len(run["initXY"]), -1) * scale).astype(dtn)
+        if init is not None:
+            init = watch("init_centers", init)
         if algo == "kcenters":
             if form == "estimator":
                 est = KCenters(m, n_clusters=kk, cluster_radius=cutf)
@@ -191,9 +200,9 @@ def record(run):
                 if run.get("warm") == "assignments":
                     from enspara.cluster import util
                     a, d = util.assign_to_nearest_center(X, X[run["init"]], util._get_distance_method(m))
-                    kw.update(assignments=a, distances=d)
+                    kw.update(assignments=watch("assignments", a), distances=watch("distances", d))
                 else:
-                    kw.update(cluster_center_inds=list(run["init"]))
+                    kw.update(cluster_center_inds=watch("cluster_center_inds", list(run["init"])))
             else:
                 kw.update(n_clusters=kk)
             if form == "estimator":
@@ -201,7 +210,7 @@ def record(run):
                 est.fit(X, **{k_: v for k_, v in kw.items() if k_ != "n_clusters"})
                 return est.result_
             if run.get("props") is not None:
-                kw.update(proposals=list(run["props"]))
+                kw.update(proposals=watch("proposals", list(run["props"])))
             return km_mod.kmedoids(X, m, n_iters=run["sweeps"], random_state=run.get("seed"), **kw)
         if algo == "hybrid":
             if form == "estimator":
@@ -248,6 +257,11 @@ def record(run):
                 # kcenters it is the returned result
                 pass
             same = bool(np.array_equal(X, X0) and X.dtype == X0.dtype)
+            changed = [nm for nm, obj, cp in watched
+                       if not (np.array_equal(obj, cp) if isinstance(obj, np.ndarray) else list(obj) == cp)]
+            if changed:
+                same = False
+                tr["inputs_changed"] = changed
             reproducible = True
             if run.get("seed") is not None or run.get("props") is not None or run["algo"] == "kcenters":
                 first["kc"] = first["pam"] = False
